@@ -140,8 +140,8 @@ pub fn run(reg: &[Box<dyn TypeOps>], cfg: &Cfg, out: &mut dyn Write) {
         let n_rand = cfg.scale * if cfg.thorough { 1200 } else { 250 };
         for _ in 0..n_rand {
             let len = match rng.below(4) { 0 => rng.below(t.min_size() as u64 + 3) as usize, 1 => t.min_size() + rng.below(2 * al as u64 + 2) as usize, _ => rng.below(72) as usize };
-            let style = rng.below(5);
-            let bytes: Vec<u8> = (0..len).map(|_| { let r = rng.next() >> 16; match style { 0 => 0, 1 => if r % 9 == 0 { (r >> 8) as u8 % 5 } else { 0 }, 2 => (r % 4) as u8, 3 => if r % 11 == 0 { 255 } else { (r >> 8) as u8 % 3 }, _ => { let v = (r >> 8) as u8; if r % 3 == 0 { v } else { v % 9 } } } }).collect();
+            let style = rng.below(6);
+            let bytes: Vec<u8> = (0..len).map(|_| { let r = rng.next() >> 16; match style { 0 => 0, 1 => if r % 9 == 0 { (r >> 8) as u8 % 5 } else { 0 }, 2 => (r % 4) as u8, 3 => if r % 11 == 0 { 255 } else { (r >> 8) as u8 % 3 }, 5 => if r % 3 == 0 { 0 } else { ((r >> 8) % 14) as u8 }, _ => { let v = (r >> 8) as u8; if r % 3 == 0 { v } else { v % 9 } } } }).collect();
             emit(&mut ar, &mut ar2, &bytes, rand_place(&mut rng), rng.chance(1, 8), None, out);
         }
         // ---- E: exhaustive short strings (length 0, 1; length 2 in thorough or sampled)
